@@ -74,7 +74,7 @@ type TxSpec struct {
 	Gas   uint64 `json:"gas,omitempty"`
 	Price uint64 `json:"price,omitempty"`
 	Data  h.Hex  `json:"data,omitempty"`
-	Sig   string `json:"sig,omitempty"` // ok none badv zero-r zero-s high-s eip155 tamper trunc extra
+	Sig   string `json:"sig,omitempty"` // ok none badv zero-r zero-s high-s big-r big-s eip155 tamper trunc extra
 	Arg   int    `json:"arg,omitempty"`
 	Note  string `json:"note,omitempty"` // generator's description of the target (labels only)
 }
@@ -194,6 +194,22 @@ func buildEth(s TxSpec) []byte {
 	case "high-s": // the other valid signature of the same message: accepted by Frontier rules only
 		sv = new(big.Int).Sub(secpN, sv)
 		v = big.NewInt(55 - v.Int64()) // 27 <-> 28
+	case "big-r", "big-s": // signature values at and beyond the group order and the 32-byte word
+		two256 := new(big.Int).Lsh(big.NewInt(1), 256)
+		vals := []*big.Int{
+			new(big.Int).Set(secpN), new(big.Int).Add(secpN, big.NewInt(1)), new(big.Int).Sub(two256, big.NewInt(1)),
+			two256, new(big.Int).Add(two256, big.NewInt(5)), new(big.Int).Add(new(big.Int).Lsh(big.NewInt(1), 264), big.NewInt(1)),
+			new(big.Int).Add(two256, r), new(big.Int).Lsh(big.NewInt(1), 520),
+		}
+		pick := vals[((s.Arg%len(vals))+len(vals))%len(vals)]
+		if s.Sig == "big-r" {
+			r = pick
+			if s.Arg&0x80 != 0 {
+				sv = big.NewInt(1) // passes every bound on s
+			}
+		} else {
+			sv = pick
+		}
 	case "tamper": // signature of another payload: recovers to some unrelated address
 		data = append(append([]byte{}, data...), byte(s.Arg))
 	case "trunc":
